@@ -49,7 +49,7 @@ Print Assumptions C07_entry_of_one_object.
 (* cyclic data terminates with a back-reference: a list containing itself is ONE entry whose
    child refers back to it *)
 Example C07_cycle_backref :
-  let h := [ {| o_ty := []; o_text := []; o_kind := KSeq [0%nat] |} ] in
+  let h := [ {| o_ty := []; o_text := []; o_kind := KSeq [0%nat]; o_sized := false |} ] in
   let s := run 10 true {| max_vars := 10; max_coll := 10; max_depth := 5; max_str := 5 |} h (init [] [] [119] 0) in
   finished s = true /\ length (table s) = 1%nat /\
   map (fun x => map r_vid (v_children (snd x))) (table s) = [[1%nat]].
@@ -59,7 +59,7 @@ Proof. vm_compute. repeat split; reflexivity. Qed.
    frame's own locals mapping (a local bound to locals()): the unwrapped "locals" entry is deleted
    while a reference to it survives.  Witness, replayed on the implementation by the check. *)
 Theorem C07_locals_alias_refuted :
-  let h := [ {| o_ty := []; o_text := []; o_kind := KDict [ {| c_name := [109;101]; c_oid := 0 |} ] |} ] in
+  let h := [ {| o_ty := []; o_text := []; o_kind := KDict [ {| c_name := [109;101]; c_oid := 0 |} ]; o_sized := false |} ] in
   let o := snapshot 10 true {| max_vars := 10; max_coll := 10; max_depth := 5; max_str := 5 |} h
                     [ {| fr_locals := 0; fr_collect := true |} ] [] in
   exists r, In r (concat (so_frames o)) /\ tlookup (r_vid r) (so_table o) = None.
